@@ -2,7 +2,7 @@
    Statements only; proofs in Proofs/StackProofs.v. *)
 From Coq Require Import List Bool.
 Import ListNotations.
-Require Import BT.Num BT.Base BT.Records BT.Engine BT.Ops BT.Algos BT.Proofs.StackProofs.
+Require Import BT.Num BT.Base BT.Records BT.Engine BT.Ops BT.Algos BT.Proofs.StackProofs BT.Proofs.RunProofs.
 
 Section C13.
 Variable N : num.
@@ -85,3 +85,21 @@ Print Assumptions C13_interp_stack.
 Print Assumptions C13_interp_or.
 Print Assumptions C13_not.
 Print Assumptions C13_mock_stacks.
+
+(* Strategy.run: the stack starts from an empty temp; perm (closed / rolled sets) and the stack itself are untouched,
+   and nothing else in the tree changes *)
+Theorem C13_run_clears_temp_keeps_perm : forall (N : num) (st : astate N),
+  a_temp (set_a_temp (empty_temp N) st) = empty_temp N /\
+  a_closed (set_a_temp (empty_temp N) st) = a_closed st /\ a_rolled (set_a_temp (empty_temp N) st) = a_rolled st /\
+  a_has_closed (set_a_temp (empty_temp N) st) = a_has_closed st /\ a_has_rolled (set_a_temp (empty_temp N) st) = a_has_rolled st /\
+  a_stack (set_a_temp (empty_temp N) st) = a_stack st.
+Proof. exact run_starts_with_empty_temp_keeps_perm. Qed.
+Print Assumptions C13_run_clears_temp_keeps_perm.
+
+Theorem C13_temp_reset_touches_only_that_strategy : forall (N : num) (p : list nat) (tr : tree N (astate N)) g k l pp,
+  get_node p (fst tr) = Some (NStrat g k l pp) ->
+  exists tr1, set_temp p (empty_temp N) tr = Ok tr1 /\
+              get_node p (fst tr1) = Some (NStrat (set_g_algo (set_a_temp (empty_temp N) (g_algo g)) g) k l pp) /\
+              snd tr1 = snd tr.
+Proof. exact temp_reset_at. Qed.
+Print Assumptions C13_temp_reset_touches_only_that_strategy.
